@@ -22,9 +22,10 @@ type Object struct {
 	Stale bool // elements are "stale"/garbage variables (C15, C01)
 	Lazy  *Str // UTF-8 bytes of a rune-represented string, not materialised (length unknown)
 	// happens-before bookkeeping (conc.go)
-	lastW  *access
-	lastR  []*access
-	Shared bool
+	lastW     *access
+	lastR     []*access
+	Shared    bool
+	LibGlobal bool // package-level variable of the library (race-tracked)
 }
 
 type Ptr struct {
